@@ -137,14 +137,17 @@ func extractMethodsFromNamedType(named *types.Named) []TypeMethod {
 	// Get method set for *T (includes both T and *T receivers)
 	ptrType := types.NewPointer(named)
 	methodSet := types.NewMethodSet(ptrType)
+	// The method set of T itself: besides the methods declared with a value receiver it holds the
+	// methods promoted through embedded pointers, whose own receiver is a pointer
+	valueSet := types.NewMethodSet(named)
 
 	for i := 0; i < methodSet.Len(); i++ {
 		selection := methodSet.At(i)
 		method := selection.Obj().(*types.Func)
 		sig := method.Type().(*types.Signature)
 
-		// Determine if receiver is pointer
-		recvIsPointer := isPointerReceiver(sig.Recv().Type())
+		// Determine if the method needs a pointer receiver, i.e. is missing from the method set of T
+		recvIsPointer := valueSet.Lookup(method.Pkg(), method.Name()) == nil
 
 		methods = append(methods, TypeMethod{
 			Name:              method.Name(),
